@@ -15,8 +15,11 @@ from .common import digest
 from .pool import HarnessError, derive_seed
 
 VERIF = pool.VERIF
-EVIDENCE_DIR = os.path.join(VERIF, "evidence")
-REPLAY_DIR = os.path.join(VERIF, "replays")
+# PMSIM_OUT redirects evidence and replay files (seeded-change experiments against a
+# scratch tree must not overwrite the evidence of runs against /repo)
+_OUT = os.environ.get("PMSIM_OUT") or VERIF
+EVIDENCE_DIR = os.path.join(_OUT, "evidence")
+REPLAY_DIR = os.path.join(_OUT, "replays")
 KNOWN = os.path.join(VERIF, "KNOWN_FINDINGS.json")
 
 CHECKS = ("C07", "C10", "C13", "C14", "C15", "C16", "C18", "C19")
